@@ -487,6 +487,7 @@ def run_schedule(spec, res):
 
 
 def run(spec, res):
+    ops.OPTIONS['zipped'] = True
     if spec['mode'] == 'program':
         run_program(spec, res)
     elif spec['mode'] == 'query':
